@@ -353,6 +353,7 @@ static bool check_fidelity(const Plan &p, const RunResult &r, const char *pfx, s
                 const std::string &k = e.first;
                 if (k[0] == '@') {
                     if (k == "@host.ci") { const Bytes *v = dump_get(t->dump, "req.host"); if (!v || lower(*v) != lower(e.second)) { oracle = std::string(pfx) + ".req.host"; detail = strfmt("tx#%zu expected '%s' got '%s'", i, esc_encode(e.second).c_str(), v ? esc_encode(*v).c_str() : "-"); return false; } }
+                    else if (k == "@method.nolead") { const Bytes *v = dump_get(t->dump, "req.method"); size_t b = 0; while (v && b < v->size() && ((*v)[b] == ' ' || (*v)[b] == '\t')) b++; if (!v || v->substr(b) != e.second) { oracle = std::string(pfx) + ".req.method"; detail = strfmt("tx#%zu expected '%s' got '%s'", i, esc_encode(e.second).c_str(), v ? esc_encode(*v).c_str() : "<absent>"); return false; } }
                     else if (k == "@param.count") { const Bytes *v = dump_get(t->dump, "req.param.count"); if (!v || *v != e.second) { oracle = std::string(pfx) + ".req.param.count"; detail = strfmt("tx#%zu expected %s got %s", i, e.second.c_str(), v ? v->c_str() : "-"); return false; } }
                     continue;
                 }
@@ -507,6 +508,17 @@ static void c07_plan(Rng &rng, Plan &p, uint64_t variant) {
         // 'H' opens a *stored* raw-deflate block; if bytes 3-4 happen to be the complement of bytes 1-2 the body is a
         // valid deflate prefix after all (seen once in 118 000 runs): make sure it is not
         if (payload.size() >= 5) { unsigned len = (unsigned char) payload[1] | ((unsigned char) payload[2] << 8), nlen = (unsigned char) payload[3] | ((unsigned char) payload[4] << 8); if (((len ^ 0xffffu) & 0xffffu) == nlen) payload[3] = (char) (payload[3] ^ 0x55); }
+        // ... or a body that begins like a gzip member header with optional fields (which the restart logic knows how to skip)
+        // and goes on with something no inflater accepts: a block of the reserved type. Not valid: passed through, all of it.
+        if (rng.chance(1, 4)) {
+            // (one optional field at a time: the library's own header skipping, simpler than RFC 1952, handles exactly one, and what
+            //  follows the skipped part has to be undecodable for it too - text after a half-skipped header can be "valid" deflate by accident)
+            static const int FLG[] = {1, 2, 8, 16};
+            Bytes hd = std::string("\x1f\x8b\x08", 3); int flg = FLG[rng.below(4)]; hd.push_back((char) flg); hd += std::string("\0\0\0\0\0\x03", 6);
+            if (flg & 8) { hd += "name.txt"; hd.push_back('\0'); } if (flg & 16) { hd += "comment"; hd.push_back('\0'); } if (flg & 2) { hd.push_back((char) 0x12); hd.push_back((char) 0x34); }
+            hd.push_back((char) (rng.coin() ? 0x07 : 0x06));
+            payload = hd + payload;
+        }
         body = payload; ce = cname == "plain-labelled-gzip" ? "gzip" : "deflate"; passthrough_expected = true;
     }
     if (body.size() > 120000) { // keep one-byte schedules inside the simulated time limit
@@ -608,7 +620,7 @@ static bool check_c07_layers(const Plan &p, const RunResult &r, std::string &ora
     long d = -1; for (long i = 0; i <= k; i++) { auto it = p.extra.find(strfmt("c07.stage.%ld", i)); if (it != p.extra.end() && it->second == t.body[1]) { d = i; break; } }
     if (agg) agg->inc(strfmt("c07.layers_undone.%ld", d));
     if (d < 0) {
-        if (t.decomp_restart_lost_input && g_known_sites.count("decomp.restart.prior_input")) { if (agg) agg->inc("known_hit.decomp.restart.prior_input"); return true; }
+        if (t.decomp_restart_lost_input) { std::string site = t.decomp_restart_prior > 13 ? "decomp.restart.prior_input_beyond_keepback" : "decomp.restart.prior_input"; if (g_known_sites.count(site)) { if (agg) agg->inc("known_hit." + site); return true; } }
         // delivered bytes are no stage of the encoding stack: data was lost or invented (unless a decoder gave up part-way, which delivers a prefix of a stage + raw remainder: not asserted)
         return true;
     }
@@ -638,9 +650,11 @@ static bool check_c07(const Plan &p, const RunResult &r, std::string &oracle, st
     if (t->body[sd] != *body) {
         size_t k = 0; while (k < body->size() && k < t->body[sd].size() && (*body)[k] == t->body[sd][k]) k++;
         if (t->decomp_restart_lost_input) {
-            // attributed by call site: the restart path re-feeds only the current chunk (known finding K04 when listed)
-            if (g_known_sites.count("decomp.restart.prior_input")) { if (agg) agg->inc("known_hit.decomp.restart.prior_input"); return true; }
-            oracle = "C07.payload_mismatch@decomp.restart.prior_input";
+            // attributed by call site: the restart path re-feeds only the current chunk. Two sites: what earlier calls had given to
+            // inflate fits the 13 bytes the library keeps back for this case (repaired, F39: never exempt), or it is more (K07)
+            std::string site = t->decomp_restart_prior > 13 ? "decomp.restart.prior_input_beyond_keepback" : "decomp.restart.prior_input";
+            if (g_known_sites.count(site)) { if (agg) agg->inc("known_hit." + site); return true; }
+            oracle = "C07.payload_mismatch@" + site;
         } else oracle = "C07.payload_mismatch." + cname;
         detail = strfmt("payload %zu bytes, delivered %zu bytes, first difference at %zu (%s)", body->size(), t->body[sd].size(), k, cname.c_str());
         return false;
@@ -656,15 +670,28 @@ static bool check_c07(const Plan &p, const RunResult &r, std::string &oracle, st
 static int ref_x2c(unsigned char a, unsigned char b) {
     int d = (a >= 'A' ? ((a & 0xdf) - 'A') + 10 : (a - '0')); d *= 16; d += (b >= 'A' ? ((b & 0xdf) - 'A') + 10 : (b - '0')); return d & 0xff;
 }
-// the decoding half of the reference rule, per configuration (u-encoding off)
+// %uHHHH (documented in htp_config.h: IIS-style escapes, decoded only when switched on): a code point below 0x100 is its low
+// byte, anything else goes through the configured best-fit map, unlisted code points give the replacement byte
+static int ref_udecode(const Bytes &s, size_t at) {
+    int c1 = ref_x2c((unsigned char) s[at], (unsigned char) s[at + 1]), c2 = ref_x2c((unsigned char) s[at + 2], (unsigned char) s[at + 3]);
+    if (c1 == 0) return c2;
+    for (const unsigned char *m = SIM_BESTFIT; m[0] || m[1]; m += 3) if (m[0] == c1 && m[1] == c2) return m[2];
+    return SIM_BESTFIT_DEFAULT;
+}
+// the decoding half of the reference rule, per configuration
 static Bytes ref_urldecode(const Bytes &s, const Cfg &c) {
-    long inv = c.get("url_invalid", 0), plus = c.get("plusspace", 1), net = c.get("nul_enc_term", 0), nrt = c.get("nul_raw_term", 0);
+    long inv = c.get("url_invalid", 0), plus = c.get("plusspace", 1), net = c.get("nul_enc_term", 0), nrt = c.get("nul_raw_term", 0), ud = c.get("u_decode", 0);
     Bytes o; size_t n = s.size(), i = 0;
     while (i < n) {
         unsigned char ch = (unsigned char) s[i];
         if (ch == '%') {
             int v = '%';
-            if (i + 2 < n) {
+            if (ud && i + 2 < n && (s[i + 1] == 'u' || s[i + 1] == 'U')) {
+                bool hex4 = i + 5 < n && isxdigit((unsigned char) s[i + 2]) && isxdigit((unsigned char) s[i + 3]) && isxdigit((unsigned char) s[i + 4]) && isxdigit((unsigned char) s[i + 5]);
+                if (hex4 || (i + 5 < n && inv == 2)) { v = ref_udecode(s, i + 2); i += 6; }   // (2 = "process invalid": decode whatever is there)
+                else if (inv == 1) { i++; continue; }
+                else i++;
+            } else if (i + 2 < n) {
                 if (isxdigit((unsigned char) s[i + 1]) && isxdigit((unsigned char) s[i + 2])) { v = ref_x2c((unsigned char) s[i + 1], (unsigned char) s[i + 2]); i += 3; }
                 else if (inv == 1) { i++; continue; }
                 else if (inv == 0) { i++; }
@@ -696,7 +723,8 @@ static void c15_plan(Rng &rng, Plan &p) {
     if (rng.coin()) p.cfg.set("plusspace", (long) rng.below(2));
     if (rng.chance(1, 4)) p.cfg.set("nul_enc_term", 1);
     if (rng.chance(1, 4)) p.cfg.set("nul_raw_term", 1);
-    if (rng.chance(1, 6)) p.cfg.set("u_decode", 1);   // differential half only (the reference does not model %u)
+    bool udec = rng.chance(1, 4);
+    if (udec) { p.cfg.set("u_decode", 1); p.cfg.set("u_map", 1); }   // %uHHHH escapes, with a best-fit map the reference knows
     Bytes in;
     int kind = (int) rng.below(4);
     if (kind < 3) {
@@ -704,6 +732,10 @@ static void c15_plan(Rng &rng, Plan &p) {
         size_t n = (size_t) rng.range(0, kind == 0 ? 8 : 64);
         for (size_t i = 0; i < n; i++) in.push_back(ALPHA[rng.below(sizeof ALPHA)]);
     } else { size_t n = (size_t) rng.range(65, 2000); for (size_t i = 0; i < n; i++) in.push_back(rng.chance(1, 6) ? "=&%+"[rng.below(4)] : (char) rng.below(256)); }
+    if (udec || rng.chance(1, 8)) {   // (also with the switch off: then they are ordinary, mostly invalid, escapes)
+        static const char *U[] = {"%u0041", "%U0062", "%u0141", "%uFF21", "%uab10", "%u1fff", "%u00", "%u0g41", "%u1234", "%u0000", "%u", "%u002B", "%u0026", "%u003d", "%uffff"};
+        int k = (int) rng.range(1, 3); for (int j = 0; j < k; j++) in.insert((size_t) rng.below(in.size() + 1), U[rng.below(sizeof U / sizeof *U)]);
+    }
     if (rng.chance(1, 5)) {
         // through the connection parser: POST body, Content-Length framing, random wire
         p.scenario = "connp";
@@ -740,7 +772,7 @@ static void eval_c15(const Plan &p, Verdict &v, Agg *agg) {
         RunResult r; execute_plan(p, r); v.executions++; v.sig = r.behaviour_sig; v.hash = r.hash; v.nontrivial = r.st.tx_completed >= 1 && r.st.cuts > 0; if (agg) agg->add_run(r);
         for (auto &x : r.viol) if (x.prop == "C01") { v.violated = true; v.oracle = "C15.via." + x.oracle; v.detail = x.detail; return; }
         auto it = p.extra.find("urlenc.input"); if (it == p.extra.end() || r.txs.empty()) return;
-        if (p.cfg.get("u_decode", 0)) return;
+        if (p.cfg.get("u_decode", 0) && !p.cfg.get("u_map", 0)) return;   // (the library's default best-fit table is not modelled)
         Dump ref = ref_urlencoded(it->second, p.cfg);
         // body parameters of the transaction, in order
         const TxRec &t = r.txs[0]; Dump got; size_t k = 0;
@@ -760,7 +792,7 @@ static void eval_c15(const Plan &p, Verdict &v, Agg *agg) {
     Fnv sig; for (auto &kv : whole) { sig.str(kv.first); sig.str(kv.second); } v.sig = sig.h; v.hash = sig.h; v.nontrivial = in.size() > 1;
     auto fail = [&](const std::string &o, const std::string &d) { v.violated = true; v.oracle = o; v.detail = d; };
     if (!viol.empty()) { fail(viol[0].oracle, viol[0].detail); return; }
-    if (!p.cfg.get("u_decode", 0)) {
+    if (!p.cfg.get("u_decode", 0) || p.cfg.get("u_map", 0)) {
         Dump ref = ref_urlencoded(in, p.cfg); Dump w2 = whole; if (!w2.empty() && w2.back().first == "flags") w2.pop_back();
         std::string key; if (!dumps_equal(ref, w2, key)) { for (auto &ch : key) if (isdigit((unsigned char) ch)) ch = 'N'; fail("C15.whole_vs_reference." + key, strfmt("input '%s'", esc_encode(in.substr(0, 120)).c_str())); return; }
     }
@@ -1642,6 +1674,14 @@ static void c11_plan(Rng &rng, Plan &p, uint64_t variant) {
         std::sort(pos.begin(), pos.end()); pos.erase(std::unique(pos.begin(), pos.end()), pos.end());
         if (pos.size() == add.size()) for (size_t i = 0; i < add.size(); i++) q.headers[pos[i]] = add[i];
     }
+    // the fields of the trigger behind a long run of other repeated fields: the library caps how many repetitions it merges per
+    // message (64), and what is over the cap is dropped - the fields that decide the framing must not be among the dropped
+    if (rng.chance(1, 5)) {
+        int nrep = (int) rng.range(60, 100); bool two = rng.coin();
+        std::vector<HeaderSpec> pad; for (int i = 0; i < nrep; i++) { HeaderSpec h; h.name = (two && (i & 1)) ? "Via" : "X-Forwarded-For"; h.value = strfmt("10.0.0.%d", i % 250); pad.push_back(h); }
+        q.headers.insert(q.headers.begin(), pad.begin(), pad.end());
+        p.cfg.set("c11_repeat_pad", nrep);
+    }
     if (q.framing == FR_NONE) { q.body.clear(); q.payload.clear(); }
     q.xexpect.clear();
     q.xexpect.push_back(std::make_pair("@flags.set", strfmt("%llu", must)));
@@ -1736,6 +1776,11 @@ Script connect_script_ex(Rng &r, int id_base, int kind, int &connect_idx, bool &
     } else {
         int post = (int) r.range(0, 3);
         if (post) { Script t = random_script(r, f, post, id_base + pre + 1); for (auto &m : t.req) s.req.push_back(m); for (auto &m : t.res) s.res.push_back(m); }
+        // the request side decides "HTTP or not" from the first line after the answer: blanks in front of the method are skipped
+        // there and by the request-line parser, so HTTP it is
+        // (not in front of HEAD: a personality that counts the blanks as an anomaly keeps them in the method, which is then not
+        //  recognised, and the framing of the answer depends on it)
+        if (post && p.status >= 200 && p.status <= 299 && s.req[(size_t) pre + 1].method != "HEAD" && r.chance(1, 3)) { static const char *LEAD[] = {" ", "\t", "  ", " \t "}; s.req[(size_t) pre + 1].lead = LEAD[r.below(4)]; }
     }
     return s;
 }
